@@ -418,5 +418,21 @@ Section Scope.
         + exact Hrest.
         + cbn [length] in Hf. lia.
     Qed.
+  
+    (* ---------- FindValueByKey with the key the VisitKeys callback was handed ---------- *)
+    Lemma key_of_qkey_of_skey sk : key_of_q (qkey_of_skey sk) = key_of_skey sk.
+    Proof. destruct sk; reflexivity. Qed.
+
+    (* the key is current and equals itself: found at once, nothing moves (a key that does not equal itself
+       — a NaN float key — starts a search in which the callback's reference is overwritten: not covered) *)
+    Lemma find_ref_current st p vm pn sk : at_member st p vm pn -> o_key st = Some sk ->
+      skey_eq sk (qkey_of_skey sk) = true ->
+      find_value_by_key_ref narrow widen o (qkey_of_skey sk) st p = Go (true, st) p /\
+      lookup (key_of_q (qkey_of_skey sk)) kvs = Some vm.
+    Proof.
+      intros HM Hkey Eq. split.
+      - unfold find_value_by_key_ref. rewrite Hkey, Eq. reflexivity.
+      - exact (at_member_match (qkey_of_skey sk) _ _ _ _ sk HM Hkey Eq).
+    Qed.
   End Doc.
 End Scope.
